@@ -1,0 +1,90 @@
+//! Read-only view of the private fields of `Game` for verification harnesses
+//! (compiled only with `--cfg daniel729_chess_verif`).
+#![allow(dead_code)]
+
+use super::{scores, Game, GamePhase, Player};
+
+/// Plain-data snapshot of every field of a `Game`.
+#[derive(Clone, Debug, PartialEq, Eq)]
+pub struct VerifDump {
+    /// 0 = empty, otherwise 1 + kind (Q,R,B,N,P,K = 0..5) + 6 for Black; index = 8*row + col
+    pub board: [u8; 64],
+    /// 1 = White to move, -1 = Black to move
+    pub side: i8,
+    /// The whole per-ply state stack: low nibble en-passant file (8 = none),
+    /// bits 4..7 = castling rights K, Q, k, q
+    pub state: Vec<u8>,
+    pub hash: u64,
+    pub score: i16,
+    pub past_hashes: [u64; 64],
+    pub past_scores: [i16; 64],
+    /// (row, col) of the cached white and black king squares
+    pub king_positions: [(i8, i8); 2],
+    pub phase_is_endgame: bool,
+    /// Which table each of the six piece-score cells points to:
+    /// 0..5 = the table of that kind (5 = KING_SCORES_MIDDLE), 6 = KING_SCORES_END, 255 = other
+    pub score_tables: [u8; 6],
+    pub move_stack_len: usize,
+}
+
+impl Game {
+    pub fn verif_dump(&self) -> VerifDump {
+        let mut board = [0u8; 64];
+        for (index, place) in self.board.iter().enumerate() {
+            if let Some(piece) = place {
+                board[index] = 1 + piece.as_index() as u8;
+            }
+        }
+
+        let state = self
+            .state
+            .iter()
+            .map(|state| {
+                (state.en_passant() as u8 & 0b1111)
+                    | (state.white_king_castling() as u8) << 4
+                    | (state.white_queen_castling() as u8) << 5
+                    | (state.black_king_castling() as u8) << 6
+                    | (state.black_queen_castling() as u8) << 7
+            })
+            .collect();
+
+        let tables: [&'static [i16; 64]; 7] = [
+            &scores::QUEEN_SCORES,
+            &scores::ROOK_SCORES,
+            &scores::BISHOP_SCORES,
+            &scores::KNIGHT_SCORES,
+            &scores::PAWN_SCORES,
+            &scores::KING_SCORES_MIDDLE,
+            &scores::KING_SCORES_END,
+        ];
+        let mut score_tables = [255u8; 6];
+        for (index, cell) in self.piece_scores.iter().enumerate() {
+            let current = cell.get();
+            for (table_index, table) in tables.iter().enumerate() {
+                if std::ptr::eq(current, *table) {
+                    score_tables[index] = table_index as u8;
+                }
+            }
+        }
+
+        VerifDump {
+            board,
+            side: match self.current_player {
+                Player::White => 1,
+                Player::Black => -1,
+            },
+            state,
+            hash: self.hash,
+            score: self.score,
+            past_hashes: self.past_hashes,
+            past_scores: self.past_scores,
+            king_positions: [
+                (self.king_positions[0].row(), self.king_positions[0].col()),
+                (self.king_positions[1].row(), self.king_positions[1].col()),
+            ],
+            phase_is_endgame: self.phase == GamePhase::Endgame,
+            score_tables,
+            move_stack_len: self.move_stack.len(),
+        }
+    }
+}
